@@ -1,4 +1,5 @@
 import VModel.Spec
+import VModel.Filters
 import Driver.ModelParse
 /-! Line-protocol handler for sentence histories (`S op,op,…`).  See DESIGN.md §4.3. -/
 namespace V.Drv
@@ -62,6 +63,19 @@ def showObsSel (sel : String) (s : Sentence) : String :=
 
 def showObs (s : Sentence) : String := showObsSel "" s
 
+/-- rules := rule { "/" rule }; rule := hex(surface) "=" (hex|~) { "+" (hex|~) } -/
+def parseRule (r : String) : Option (List Char × List Tag) :=
+  match r.splitOn "=" with
+  | [k, ts] => do
+    let k ← hexToStr? k
+    let ts ← (if ts.isEmpty then some [] else
+      (ts.splitOn "+").mapM (fun t => if t = "~" then some (none : Tag) else (hexToStr? t).map some))
+    pure (k, ts)
+  | _ => none
+
+def parseRules (rs : String) : Option TagRules :=
+  if rs = "-" then some [] else (rs.splitOn "/").mapM parseRule
+
 def parseLabels (x : String) : Option (List B) :=
   if x = "-" then some [] else x.toList.mapM B.ofChar?
 
@@ -112,6 +126,11 @@ def sentOp (preds : List Predictor) (models : List WModel) (s : Sentence) (op : 
         | none => []
       s!"{en}={joinWith "+" ((specTokenTags m s.text st en).map showTag)}={joinWith ":" (scores.map toString)}"
     some (s, "X" ++ joinWith "." items)
+  | ["filter", "ws", t] => t.toNat?.bind fun t => ctor (filterWsConst t s)
+  | ["filter", "lb"] => ctor (filterLinebreaks s)
+  | ["filter", "gc", ls] =>
+    (if ls = "-" then some [] else (ls.splitOn ".").mapM String.toNat?).bind fun ls => ctor (filterGraphemes ls s)
+  | ["filter", "tag", rs] => (parseRules rs).bind fun rules => ctor (filterTagger rules s)
   | ["reset", k] => k.toNat?.map fun k => (s.resetTags k, "ok")
   | ["setbs", ls] =>
     (parseLabels ls).bind fun bs =>
